@@ -555,6 +555,14 @@ class ClusterSim:
                 if can_return:
                     weighted += [len(steps)] * (8 if self.slow_data == "dups" else 5)
                 i = weighted[self.ch.choose(len(weighted))]
+            elif self.parked:
+                # a worker pre-empted in the middle of a task tends to stay so for a while: everything else -- forwarding, transfers,
+                # other workers, the controller's next rounds -- is four times as likely as letting it continue (every step remains
+                # possible at every point)
+                weighted = [j for j, st_ in enumerate(steps) for _ in range(1 if st_[0] == "R" else 4)]
+                if can_return:
+                    weighted += [len(steps)] * 4
+                i = weighted[self.ch.choose(len(weighted))]
             else:
                 n = len(steps) + (1 if can_return else 0)
                 i = self.ch.choose(n)
